@@ -807,6 +807,51 @@ func fmaProductOutOfRange(k *opCase) bool {
 	return le < oracle.MinExp || le > oracle.MaxExp
 }
 
+// fmaKnownOutcome models the pinned tree's behaviour behind known finding D15: FMA forms the product within the
+// receiver's exponent range, so a product beyond it has become an infinity or a zero before u is added. ok is false
+// when the case is outside the finding's class; nan means the model ends in the ErrNaN "infinities with opposite signs".
+func fmaKnownOutcome(k *opCase) (nan bool, want oracle.Result, ok bool) {
+	if !fmaProductOutOfRange(k) {
+		return false, oracle.Result{}, false
+	}
+	le := oracle.Digits(new(big.Int).Mul(k.x.Coef, k.y.Coef)) + k.x.Exp + k.y.Exp
+	pneg := k.x.Neg != k.y.Neg
+	if le > oracle.MaxExp { // the product saturated to an infinity: Inf + u
+		if k.u.Form == oracle.Inf && k.u.Neg != pneg {
+			return true, oracle.Result{}, true
+		}
+		return false, oracle.Result{V: oracle.Val{Form: oracle.Inf, Neg: pneg}}, true
+	}
+	// the product was flushed to a zero: the result is u, rounded to the receiver
+	if k.u.Form != oracle.Finite {
+		return false, oracle.Result{V: k.u}, true
+	}
+	return false, oracle.RoundOnce(oracle.ExDec{Neg: k.u.Neg, Coef: k.u.Coef, Exp: k.u.Exp}, k.p, k.mode), true
+}
+
+// fmaKnownFinding returns D15's predicate name when the case lies in the finding's class AND what was observed is what
+// the finding describes (the saturating model above); any other outcome in that class is a violation of its own.
+func fmaKnownFinding(k *opCase, got *hx.State, pi *hx.PanicInfo) string {
+	nan, want, ok := fmaKnownOutcome(k)
+	if !ok {
+		return ""
+	}
+	const pred = "fma_product_exponent_out_of_range"
+	if pi != nil {
+		if nan && pi.IsNaN {
+			return pred
+		}
+		return ""
+	}
+	if got == nil || nan {
+		return ""
+	}
+	if got.V.Form == want.V.Form && got.V.Neg == want.V.Neg && got.Acc == want.Acc && (want.V.Form != oracle.Finite || oracle.Equal(got.V, want.V)) {
+		return pred
+	}
+	return ""
+}
+
 // ------------------------------------------------- aliasing shapes (C03, C10)
 
 // partitions4 lists the 15 set partitions of {z, x, y, u} as group ids per role.
